@@ -372,6 +372,23 @@ def clean_base(g, max_clauses=2, p_alias=0.15):
     raise Infra("could not generate a clean base query")
 
 
+def broad_base(g):
+    """one broad clause over a large content: columns with many values of one kind (numbers incl.
+    negatives and fractions, anchors in several zones / precisions, predicates, ids) to sort and filter"""
+    content = sorted(set(g.content(14, 24)) | set(g.rng.sample([14, 26, 27, 28, 29, 30, 6, 7, 8, 9, 10, 31, 21], 6)))
+    r = g.rng.random()
+    if r < 0.3:
+        cls = [bqlgen.clause(bqlgen.S(b="?s"), bqlgen.P(pid=g.rng.choice([bqlu.sid("s"), bqlu.sid("q"), bqlu.sid("p")]), ab="?t"), bqlgen.O(b="?o"))]
+    elif r < 0.55:
+        cls = [bqlgen.clause(bqlgen.S(b="?s", id="?sid" if g.rng.random() < 0.5 else ""), bqlgen.P(b="?p", at="?t", id="?pid" if g.rng.random() < 0.4 else ""), bqlgen.O(b="?o"))]
+    elif r < 0.8:
+        cls = [bqlgen.clause(bqlgen.S(b="?s"), bqlgen.P(c=4), bqlgen.O(b="?o"))]     # "q"@[]: ints, floats, text, bool
+    else:
+        cls = [bqlgen.clause(bqlgen.S(b="?s", ty="?sty" if g.rng.random() < 0.4 else ""), bqlgen.P(b="?p"), bqlgen.O(b="?o", at="?ot" if g.rng.random() < 0.3 else ""))]
+    return {"clauses": cls, "names": bqlgen.pattern_names(cls), "graphs": g.split(content, g.rng.choice([1, 1, 2])),
+            "glo": 0, "ghi": 0, "alt": False, "content": content}
+
+
 def sel_text(b, select, **kw):
     q = {"select": select, "ngraphs": len(b["graphs"]), "clauses": b["clauses"], "glo": b["glo"], "ghi": b["ghi"], "alt": b["alt"]}
     q.update(kw)
@@ -510,6 +527,8 @@ def check_order(v, tier, d):
     plans = []
     for _ in range(n):
         base = clean_base(g, max_clauses=2, p_alias=0.2)
+        if g.rng.random() < 0.4:
+            base = broad_base(g)
         names = base["names"]
         sel = list(names)
         group = None
@@ -531,6 +550,11 @@ def check_order(v, tier, d):
         if not order and limit is None:
             limit = g.rng.choice([0, 1, 2, 3])
         kw = {"group": group} if group else {}
+        if g.rng.random() < 0.2:
+            # in combination with HAVING (same clause in the base and in every variant; its meaning is C13's matter)
+            nodes = []
+            _, htxt = gen_expr(g, outnames, g.rng.choice([0, 0, 1]), nodes, [set() for _ in outnames])
+            kw["having"] = htxt
         hb = b.add(base["graphs"], sel_text(base, sel, **kw))
         ho = b.add(base["graphs"], sel_text(base, sel, order=order, **kw)) if order else hb
         hr = b.add(base["graphs"], sel_text(base, sel, order=order, **kw)) if order else hb
@@ -825,3 +849,36 @@ def check(prop):
     else:
         raise Infra("property %s not implemented in fam_bql" % prop)
     return v.finish()
+
+
+def replay(prop, rec):
+    """Re-execute the driver cases of a recorded violation on the current tree and re-validate the
+    recorded event with the fresh results (rows of the variant replaced); prints both outcomes."""
+    ro = rec.get("replay") or {}
+    cases = ro.get("cases") or ([ro["case"]] if ro.get("case") else [])
+    if not cases:
+        raise Infra("replay record has no driver cases")
+    vlib.build_harness(["bqldrv"])
+    d = vlib.scratch("bqlreplay-")
+    for i, c in enumerate(cases):
+        c["id"] = i
+    res = run_cases(cases, d, "replay")
+    bad = False
+    for c in cases:
+        r = res[c["id"]]
+        print("case:", c["text"])
+        print("  perr=%r err=%r panic=%r timeout=%r" % (r["perr"][:200], r["err"][:200], r["panic"][:200], r["timeout"]))
+        print("  cols=%s rows=%s" % (r["cols"], json.dumps(r["rows"])[:1500]))
+        bad = bad or bool(r["panic"] or r["timeout"])
+    ev = ro.get("event")
+    if ev and ev.get("ev") in ("Q",):
+        # re-judge a SELECT against the solutions oracle with the fresh rows
+        r = res[cases[-1]["id"]]
+        rows = rows_in_order(r, ev["proj"]) if not r["err"] else []
+        ev2 = dict(ev, rows=rows if rows is not None else [], err=bool(r["err"]))
+        rejects, opens, _ = validate([ev2], d, "replay")
+        for _, p, cls in rejects:
+            print("VIOLATION property=%s replay=%s" % (prop, os.environ.get("VERIF_REPLAY", "")))
+            print("  class=%s (re-validated on the current tree)" % cls)
+            bad = True
+    return 1 if bad else 0
